@@ -755,7 +755,7 @@ def _spec_tokens(toks, pos):
 
 
 def emit_canon_text(text):
-    """the body of the (single) emitted module in the canonical form the driver prints for the model (see
+    r"""the body of the (single) emitted module in the canonical form the driver prints for the model (see
     Driver/C04Main.lean): generated names `$k` — and `\out` — renamed in order of first occurrence in cells/processes
     -> (canonical string, {cell type: count})"""
     lines = [ln.strip() for ln in text.split("\n")]
@@ -1075,10 +1075,22 @@ def run(chk):
         seeds = [rng.getrandbits(48) for _ in range(n)]
         for k in range(0, n, 10):
             args.append((seeds[k:k + 10], opts, EXE))
+    # stream `emit`: the emitter model of `emit_expr_correct_partial` against the real emitter, expression by expression
+    n_emit = 2000 if quick else 40000
+    emit_seeds = [rng.getrandbits(48) for _ in range(n_emit)]
+    emit_args = [(emit_seeds[k:k + 50], EXE) for k in range(0, n_emit, 50)]
     with ProcessPoolExecutor(max_workers=min(16, os.cpu_count() or 4)) as ex:
         for cases in ex.map(job, args, chunksize=1):
             for c in cases:
                 judge(chk, c)
+        for cases in ex.map(emit_job, emit_args, chunksize=1):
+            for c in cases:
+                emit_judge(chk, c)
+    eo = chk.extra.get("distribution", {}).get("emit_outcome", {})
+    chk.extra["emit_stream"] = {"expressions": n_emit, "same_cells": sum(v for k, v in eo.items() if k.startswith("same_cells")),
+                                "outcomes": dict(eo)}
+    if sum(v for k, v in eo.items() if k.startswith("same_cells")) < 0.8 * n_emit:
+        chk.not_shown("emit stream: fewer than 80% of the generated expressions reached the cell-by-cell comparison", dict(eo))
     if chk.extra.get("generator_errors", 0) > 0.05 * sum(n for n, _o in plan):
         chk.not_shown("the design generator itself fails on more than 5% of the seeds (nothing is being checked)",
                       {"generator_errors": chk.extra["generator_errors"], "example": chk.extra.get("generator_error_example")})
@@ -1088,14 +1100,25 @@ def run(chk):
         "statement trees of the C01/C02 generators, 1-3 clock domains pos/neg edge with sync, async or no reset, memories with "
         "sync/comb/transparent read ports and granular write ports; no Instances, no I/O buffers), each simulated for 5-40 "
         "events (clock toggles of a random set of domains, input and reset changes) and evaluated from its RTLIL text; every "
-        "named signal compared after every event. distinct = distinct RTLIL text; non-trivial = some observed value changes")
+        "named signal compared after every event. distinct = distinct RTLIL text; non-trivial = some observed value changes. "
+        "Stream emit: expressions of the C01 generator (harness/gen_expr.py, depth 1-4, 1-4 signals of width 0-8, rebuilt as "
+        "trees of fresh AST nodes) assigned to one output; rtlil.convert's cells, parameters, connections, process bodies, "
+        "wire widths and the sigspec connected to the output, in emission order and up to generated names, compared with "
+        "what Model/Rtlil/EmitExpr.lean emits (the function emit_expr_correct_partial is about); the model's cells are also "
+        "run in the RTLIL evaluator on 4 environments and compared with evalRtl; distinct = distinct canonical cell list")
     chk.extra["programs"] = chk.cov["evaluations"]
     chk.extra["disagreements_checked"] = chk.cov["evaluations"]
     chk.extra["trusted_base"] = [
         "the semantics of the RTLIL cells, processes, memories and hierarchy as transcribed from the Yosys manual in "
         "Model/Rtlil/Cells.lean and Model/Rtlil/Eval.lean (no Yosys in the sandbox to cross-check the transcription)"]
     chk.assumptions += [
-        "per-design equivalence is translation validation over sampled designs and stimuli, not a theorem",
+        "per-design equivalence is translation validation over sampled designs and stimuli, not a theorem; for right-hand-side "
+        "expressions the emitter is proved (C04.emit_expr_correct_partial) about a model that the emit stream compares with "
+        "the real emitter cell by cell",
+        "emit stream, outside the model: emit_rhs caches by object identity (an AST object used twice is emitted once; the "
+        "stream rebuilds every expression as a tree), src attributes, generated names (compared up to renaming; zero-width "
+        "wires all count as one), and three AST forms the model's expression syntax cannot tell apart from others (a choice "
+        "without cases, the Mux form written with an explicit all-don't-care pattern, unary plus) which are counted and skipped",
         "data inputs and resets never change in the same event as a clock edge (no setup/hold races); coincident edges of "
         "different clocks are exercised",
         "undefined (x) RTLIL values (read-port INIT_VALUE, reads outside a memory, unguarded division by zero) are resolved "
@@ -1112,6 +1135,20 @@ def replay(chk, path):
     RTLIL with the Lean evaluator and print where the two differ; exit 1 if they still do"""
     import json
     rep = json.load(open(path))["replay"]
+    if rep.get("stream") == "emit":
+        case = emit_case(int(rep["emit_seed"]))
+        if "request" in case:
+            case["resp"] = common.Driver(EXE).ask([case["request"]])[0]
+        emit_judge(chk, case)
+        for summary, _r in chk.violations:
+            print("VIOLATION", summary[:400])
+        for fid, n in chk.known_seen.items():
+            print(f"KNOWN-FINDING {fid} (seen {n}x)")
+        for what, _d in chk.unshown:
+            print("NOT SHOWN", what)
+        if not chk.violations and not chk.unshown and not chk.known_seen:
+            print("not reproduced on the current tree")
+        return common.EXIT_VIOLATION if (chk.violations or chk.unshown) else common.EXIT_OK
     seed, opts = int(rep["design_seed"]), rep.get("opts") or {}
     if isinstance(opts, str):
         import ast
